@@ -128,7 +128,7 @@ func checkLedger(own, tier string) int {
 		params := world.Params{Frankenstein: fr, NumCandidates: 3, NumEthUsers: 3, TopValidators: 5, ChainID: fmt.Sprintf("OneLedger-%s-%d", strings.ToLower(own), hseed)}
 		w0, _ := world.New(params)
 		lm := newLedgerMonitor(r, own, w0, hseed)
-		cfg := drive.Cfg{Tag: strings.ToLower(own), Seed: hseed, Blocks: blocks, Params: params, Scripts: allScripts, Scout: true, Jumps: true, Absents: true}
+		cfg := drive.Cfg{Tag: strings.ToLower(own), Seed: hseed, Blocks: blocks, Params: params, Scripts: allScripts, Scout: true, Jumps: true, Absents: true, Honest: true}
 		cfg.OnBlock = func(run *hist.Runner, blk *hist.Block) bool {
 			changed := len(blk.Txs) > 0
 			r.Case(fmt.Sprintf("%d/%d/%s", hseed, blk.H, blk.Commit.AppHash), changed)
